@@ -18,14 +18,14 @@ import (
 //
 // For every line count L, node count K and batch-file encoding: the real calcHermesBatch
 // prints the ranges (-list) and the job-array size (-size); every printed range is handed to
-// the real hermes2go (-lines a-b -logoutput) on a batch of instantly failing lines (no
-// project= token, so each run returns its error immediately: dispatch, line-range handling,
-// result collection and the error summary are the real ones). The multiset of executed log
+// the real hermes2go (-lines a-b -logoutput) on a batch of lines that fail at the soil lookup with
+// an error naming the line's own soil id (dispatch, line-range handling, result collection
+// and the error summary are the real ones, and every executed line is identified by content). The multiset of executed log
 // ids must be exactly {0..L-1}.
 
 var c17Variants = []string{"lf", "lf_no_final_newline", "crlf", "lf_blank_lines", "crlf_blank_lines_no_final_newline"}
 
-func c17BatchFile(L int, variant string) string {
+func c17BatchFile(L int, variant string, lineHead string) string {
 	nl := "\n"
 	if strings.HasPrefix(variant, "crlf") {
 		nl = "\r\n"
@@ -38,7 +38,7 @@ func c17BatchFile(L int, variant string) string {
 				b.WriteString(nl) // two blank lines in a row
 			}
 		}
-		fmt.Fprintf(&b, "plotNr=%d line=%d", 1000+i, i)
+		fmt.Fprintf(&b, "%s soilId=X%03d", lineHead, i)
 		if i < L-1 || !strings.Contains(variant, "no_final_newline") {
 			b.WriteString(nl)
 		}
@@ -60,16 +60,17 @@ func runBin(timeoutSec int, dir string, bin string, args ...string) (string, err
 
 var reDispatch = regexp.MustCompile(`^\[(\d+)\]$`)
 var reDone = regexp.MustCompile(`^\[(\d+)\] Error: `)
+var reContent = regexp.MustCompile(`^\[(\d+)\] Error: .*'X(\d+)' not found`)
 
 // c17Exec runs hermes2go on the range and returns the dispatched ids, the completed (error-reported) ids, and the summary ids.
-func c17Exec(bin, dir, batch string, rng string, conc int) (dispatched, done, summary []int, raw string, timedOut bool, err error) {
-	out, e, to := runBin(60, dir, bin, "-module", "batch", "-concurrent", strconv.Itoa(conc), "-logoutput", "-batch", batch, "-lines", rng)
+func c17Exec(bin, dir, batch string, rng string, conc int) (dispatched, done, summary []int, contents []int, raw string, timedOut bool, err error) {
+	out, e, to := runBin(60, dir, bin, "-module", "batch", "-concurrent", strconv.Itoa(conc), "-logoutput", "-workingdir", dir, "-batch", batch, "-lines", rng)
 	raw = out
 	if to {
-		return nil, nil, nil, raw, true, nil
+		return nil, nil, nil, nil, raw, true, nil
 	}
 	if e != nil {
-		return nil, nil, nil, raw, false, e
+		return nil, nil, nil, nil, raw, false, e
 	}
 	inSummary := false
 	for _, l := range strings.Split(strings.ReplaceAll(out, "\r\n", "\n"), "\n") {
@@ -87,6 +88,13 @@ func c17Exec(bin, dir, batch string, rng string, conc int) (dispatched, done, su
 				summary = append(summary, v)
 			} else {
 				done = append(done, v)
+				// which batch line was it: the line's own soil id comes back in the error text
+				if mc := reContent.FindStringSubmatch(l); mc != nil {
+					c, _ := strconv.Atoi(mc[2])
+					contents = append(contents, c)
+				} else {
+					contents = append(contents, -1)
+				}
 			}
 		}
 	}
@@ -107,14 +115,23 @@ func init() {
 			return res
 		}
 		defer os.RemoveAll(dir)
+		// one small generated project: every batch line names it with a soil id of its own that does not exist, so each run
+		// ends at the soil lookup with an error that carries the line's identity
+		sc := GenScenario("C17", seed, shard)
+		args, err := sc.Materialize(dir, filepath.Join(dir, "res"))
+		if err != nil {
+			return res
+		}
+		lineHead := strings.Join(args, " ")
 		for L := 1 + shard; L <= maxL; L += nshards {
 			for _, variant := range c17Variants {
 				begin(fmt.Sprintf("L=%d %s", L, variant))
 				batch := filepath.Join(dir, fmt.Sprintf("batch_%d_%s.txt", L, variant))
-				os.WriteFile(batch, []byte(c17BatchFile(L, variant)), 0644)
+				os.WriteFile(batch, []byte(c17BatchFile(L, variant, lineHead)), 0644)
 				type execRes struct {
-					ids []int
-					ok  bool
+					ids      []int
+					contents []int
+					ok       bool
 				}
 				memo := map[string]execRes{}
 				for K := 1; K <= maxK; K++ {
@@ -178,14 +195,14 @@ func init() {
 						er, have := memo[key]
 						if !have {
 							conc := []int{1, 2, 3, 16}[(ab[0]+ab[1]+K)%4]
-							disp, done, summ, raw, to, err := c17Exec(h2g, dir, batch, key, conc)
+							disp, done, summ, conts, raw, to, err := c17Exec(h2g, dir, batch, key, conc)
 							res.cov("simulator_invocations", 1)
 							if to {
 								res.cov("inconclusive_timeouts", 1)
-								er = execRes{nil, false}
+								er = execRes{nil, nil, false}
 							} else if err != nil {
 								res.violate("C17", "simulator_failed", fmt.Sprintf("%s: hermes2go -lines %s failed: %v\n%s", desc, key, err, lastLines(raw, 5)), nil)
-								er = execRes{nil, false}
+								er = execRes{nil, nil, false}
 							} else {
 								if !sameMultiset(disp, done) || !sameMultiset(disp, summ) {
 									res.violate("C17", "dispatch_result_mismatch", fmt.Sprintf("%s: -lines %s dispatched %v, reported %v, error summary lists %v", desc, key, disp, done, summ), nil)
@@ -198,7 +215,11 @@ func init() {
 								if !sameMultiset(disp, want) {
 									res.violate("C17", "line_range_executes_wrong_lines", fmt.Sprintf("%s: -lines %s executed ids %v, expected %v", desc, key, disp, want), nil)
 								}
-								er = execRes{disp, true}
+								// ... and they must be exactly the batch lines number a..b (by content, not only by log id)
+								if !sameMultiset(conts, want) {
+									res.violate("C17", "line_range_executes_wrong_content", fmt.Sprintf("%s: -lines %s executed the batch lines %v (-1 = an entry that is not a batch line), expected lines %v", desc, key, conts, want), nil)
+								}
+								er = execRes{disp, conts, true}
 							}
 							memo[key] = er
 						}
@@ -206,9 +227,11 @@ func init() {
 							execOK = false
 							continue
 						}
-						for _, id := range er.ids {
+						for _, id := range er.contents {
 							if id >= 0 && id < len(count) {
 								count[id]++
+							} else {
+								count[len(count)-1]++ // an executed entry that is not one of the batch lines
 							}
 						}
 					}
@@ -222,7 +245,7 @@ func init() {
 							want = 1
 						}
 						if count[i] != want {
-							bad += fmt.Sprintf(" id %d executed %d times;", i, count[i])
+							bad += fmt.Sprintf(" batch line %d executed %d times;", i, count[i])
 						}
 					}
 					if bad != "" {
